@@ -5,7 +5,7 @@ Heteroscedastic models: props/approx_hetero.py (`c16_hetero_cases`), if present.
 from .common import seeded
 from . import approx
 PROPERTY = "C16"
-LEAN_MODULES = ["GT.Props.C16", "GT.Props.C16Trunc"]
+LEAN_MODULES = ["GT.Props.C16", "GT.Props.C16Trunc", "GT.Props.C16Joint"]
 ASSUMPTIONS = ["float64 rounding outside the theorems; inputs with condition number <= 1e4",
                "feature models: Gauss-Hermite reference (Dx <= 2, two orders compared) and closed-form Gaussian integrals (any Dx)"]
 
